@@ -138,11 +138,21 @@ mod simd_blocks {
 }
 
 // ---------------------------------------------------------------------------------------------- the cursor (src/iter.rs)
-const N: usize = 256;
-/// any reachable `Bytes` state over a symbolic buffer of length <= N: (bytes, buf, start, cursor)
-fn any_bytes<'a>(arr: &'a [u8; N]) -> (Bytes<'a>, &'a [u8], usize, usize) {
-    let len: usize = kani::any_where(|l: &usize| *l <= N);
-    let buf = &arr[..len];
+/// A buffer of ANY length up to MAXLEN with unconstrained contents: ONE heap object of symbolic size.  MAXLEN = 2^46 bytes
+/// (64 TiB) stays inside CBMC's pointer-offset width under Kani's default 16 object bits; the cursor methods are loop-free,
+/// so this is a complete check for every such length, not a bounded one.
+const MAXLEN: usize = 1 << 46;
+fn any_buf<'a>() -> &'a [u8] {
+    let len: usize = kani::any_where(|l: &usize| *l <= MAXLEN);
+    let layout = std::alloc::Layout::from_size_align(if len == 0 { 1 } else { len }, 1).unwrap();
+    let p = unsafe { std::alloc::alloc(layout) };
+    kani::assume(!p.is_null());
+    unsafe { std::slice::from_raw_parts(p, len) }
+}
+/// any reachable `Bytes` state over such a buffer: (bytes, buf, start, cursor)
+fn any_bytes<'a>() -> (Bytes<'a>, &'a [u8], usize, usize) {
+    let buf = any_buf();
+    let len = buf.len();
     let a: usize = kani::any_where(|x: &usize| *x <= len);
     let b: usize = kani::any_where(|x: &usize| *x <= len - a);
     let mut bytes = Bytes::new(buf);
@@ -150,6 +160,13 @@ fn any_bytes<'a>(arr: &'a [u8; N]) -> (Bytes<'a>, &'a [u8], usize, usize) {
     bytes.commit();
     unsafe { bytes.advance(b); }
     (bytes, buf, a, a + b)
+}
+/// vacuity guard for any_bytes(): this harness MUST FAIL (the state it describes -- a huge buffer, cursor far inside, a
+/// particular byte under the cursor -- has to be reachable); tools/kani_run.py inverts the verdict of *_mustfail harnesses
+#[kani::proof]
+fn leaf_bytes_state_reachable_mustfail() {
+    let (bytes, buf, start, cur) = any_bytes();
+    assert!(!(buf.len() > (1 << 45) && start > (1 << 20) && cur > (1 << 44) && bytes.peek() == Some(7)));
 }
 /// observers of the Verus model, read off the real struct: b_base, b_start, b_cur, |b_buf|
 fn obs(bytes: &Bytes, buf: &[u8]) -> (usize, usize, usize, usize) {
@@ -159,16 +176,14 @@ fn obs(bytes: &Bytes, buf: &[u8]) -> (usize, usize, usize, usize) {
 
 #[kani::proof]
 fn leaf_bytes_new() {
-    let arr: [u8; N] = kani::any();
-    let len: usize = kani::any_where(|l: &usize| *l <= N);
-    let buf = &arr[..len];
+    let buf = any_buf();
+    let len = buf.len();
     let bytes = Bytes::new(buf);
     assert_eq!(obs(&bytes, buf), (buf.as_ptr() as usize, 0, 0, len));
 }
 #[kani::proof]
 fn leaf_bytes_reads() {
-    let arr: [u8; N] = kani::any();
-    let (bytes, buf, start, cur) = any_bytes(&arr);
+    let (bytes, buf, start, cur) = any_bytes();
     assert_eq!(obs(&bytes, buf), (buf.as_ptr() as usize, start, cur, buf.len()));
     assert_eq!(bytes.pos(), cur - start);
     assert_eq!(bytes.len(), buf.len() - cur);
@@ -184,8 +199,7 @@ fn leaf_bytes_reads() {
 }
 #[kani::proof]
 fn leaf_bytes_peek_n() {
-    let arr: [u8; N] = kani::any();
-    let (bytes, buf, _start, cur) = any_bytes(&arr);
+    let (bytes, buf, _start, cur) = any_bytes();
     let e: Option<[u8; 8]> = bytes.peek_n::<[u8; 8]>(8);
     if cur + 8 <= buf.len() { assert_eq!(&e.unwrap()[..], &buf[cur..cur + 8]); } else { assert!(e.is_none()); }
     let f: Option<[u8; 4]> = bytes.peek_n::<[u8; 4]>(4);
@@ -193,8 +207,7 @@ fn leaf_bytes_peek_n() {
 }
 #[kani::proof]
 fn leaf_bytes_advance() {
-    let arr: [u8; N] = kani::any();
-    let (mut bytes, buf, start, cur) = any_bytes(&arr);
+    let (mut bytes, buf, start, cur) = any_bytes();
     let n: usize = kani::any_where(|n: &usize| *n <= buf.len() - cur);
     if kani::any() {
         unsafe { bytes.advance(n); }
@@ -209,15 +222,13 @@ fn leaf_bytes_advance() {
 }
 #[kani::proof]
 fn leaf_bytes_commit() {
-    let arr: [u8; N] = kani::any();
-    let (mut bytes, buf, _start, cur) = any_bytes(&arr);
+    let (mut bytes, buf, _start, cur) = any_bytes();
     bytes.commit();
     assert_eq!(obs(&bytes, buf), (buf.as_ptr() as usize, cur, cur, buf.len()));
 }
 #[kani::proof]
 fn leaf_bytes_slice() {
-    let arr: [u8; N] = kani::any();
-    let (mut bytes, buf, start, cur) = any_bytes(&arr);
+    let (mut bytes, buf, start, cur) = any_bytes();
     let s = bytes.slice();
     // C04: exactly the pointer range [base+start, base+cur)
     assert_eq!(s.as_ptr(), buf.as_ptr().wrapping_add(start));
@@ -226,8 +237,7 @@ fn leaf_bytes_slice() {
 }
 #[kani::proof]
 fn leaf_bytes_slice_skip() {
-    let arr: [u8; N] = kani::any();
-    let (mut bytes, buf, start, cur) = any_bytes(&arr);
+    let (mut bytes, buf, start, cur) = any_bytes();
     let k: usize = kani::any_where(|k: &usize| *k <= cur - start);
     let s = unsafe { bytes.slice_skip(k) };
     // C04: exactly the pointer range [base+start, base+cur-k)
@@ -237,8 +247,7 @@ fn leaf_bytes_slice_skip() {
 }
 #[kani::proof]
 fn leaf_bytes_next() {
-    let arr: [u8; N] = kani::any();
-    let (mut bytes, buf, start, cur) = any_bytes(&arr);
+    let (mut bytes, buf, start, cur) = any_bytes();
     let r = bytes.next();
     assert_eq!(r, buf.get(cur).copied());
     assert_eq!(obs(&bytes, buf), (buf.as_ptr() as usize, start, if cur < buf.len() { cur + 1 } else { cur }, buf.len()));
